@@ -85,6 +85,18 @@ func (c *sessClient) setCookies(op string) []string {
 		return []string{"h=" + v + "; HttpOnly"}
 	case "two-cookies":
 		return []string{"x=" + v, "y=" + v + "b; Path=/"}
+	case "same-set":
+		return []string{"r=" + c.label + "~same"}
+	case "same-delete-maxage":
+		return []string{"r=" + c.label + "~same; Max-Age=0"}
+	case "same-delete-expires":
+		return []string{"r=" + c.label + "~same; Expires=Thu, 01 Jan 1970 00:00:00 GMT"}
+	case "same-path-a":
+		return []string{"r=" + c.label + "~same; Path=/a"}
+	case "same-path-root":
+		return []string{"r=" + c.label + "~same; Path=/"}
+	case "same-refresh":
+		return []string{"r=" + c.label + "~same; Max-Age=3600"}
 	case "same-name-other-path":
 		return []string{"x=" + v + "; Path=/a/b"}
 	}
